@@ -93,7 +93,13 @@ func watchdog(ch chan int, out *os.File) {
 			cur = id
 			cpu0, wall0 = cpuTime(), time.Now()
 		case <-tick.C:
-			if cur >= 0 && (cpuTime()-cpu0 > 20*time.Second || time.Since(wall0) > 300*time.Second) {
+			cpuCap, wallCap := 20*time.Second, 300*time.Second
+			if RaceBuild {
+				// race-build episodes are page-fault bound and slow down by two orders
+				// of magnitude when the machine is busy
+				cpuCap, wallCap = 240*time.Second, 1200*time.Second
+			}
+			if cur >= 0 && (cpuTime()-cpu0 > cpuCap || time.Since(wall0) > wallCap) {
 				fmt.Fprintf(out, "WATCHDOG %d\n", cur)
 				os.Exit(3)
 			}
